@@ -9,11 +9,25 @@ Two uses (see checks/c17.py):
     let TLC (spec/GroundTrace.tla) decide every step.
 
 A *version* is {"prog": IR (harness/ir.py, no @Ground/@AttachDatabase lines),
-"grounded": [{"p": predicate, "t": table name}]}.  A run is exactly what
-`logica.py <file> run <p>` does on SQLite: parse, LogicaProgram,
-FormattedPredicateSql, then preamble + defines_and_exports + main SQL on a
-fresh sqlite3_logica.SqliteConnect().
+"attached": [alias...], "dataset": alias or "", "grounded": [{"p": predicate,
+"t": "" | "alias.name"}]} (spec/GroundSem.tla).  Every alias is a separate
+SQLite file; the observed state is every table of EVERY attached file, keyed
+"alias.name".
+
+A run goes through the real entry points of the property's anchor:
+  mode "script": parse, LogicaProgram, FormattedPredicateSql in-process, then
+      the REAL common/sqlite3_logica.RunSqlScript([preamble] +
+      defines_and_exports + [main SQL], "csv") - what logica.py's sqlite
+      branch calls;
+  mode "main":   subprocess `python $LOGICA_REPO/logica.py prog.l run_to_csv P`.
+Both return CSV text only.  The typed rows handed to the specification come
+from a read-only re-execution of preamble + main SQL (no exports) against the
+files the real runner left; the run is accepted as "ok" only if the real
+runner's CSV text equals the CSV rendering of those rows (sqlite3_logica.Csv),
+else its status is "output_differs".
 """
+import subprocess
+import sys
 import contextlib
 import io
 import json
@@ -28,8 +42,30 @@ _cache = {}
 STATS = {'compiled': 0, 'cached': 0}
 
 
-def DbPath():
-  return os.path.join(common.BuildDir('c17', 'db'), 'w%d.db' % os.getpid())
+def DbPath(alias='logica_test'):
+  return os.path.join(common.BuildDir('c17', 'db'),
+                      'w%d_%s.db' % (os.getpid(), alias))
+
+
+def Aliases(versions):
+  out = []
+  for v in versions:
+    for a in v['attached']:
+      if a not in out:
+        out.append(a)
+  return out
+
+
+def StrLit(s):
+  """A string as a Logica literal: "..." when it can carry it, a
+  triple-quoted literal for newlines / double quotes, else '...' with
+  escapes."""
+  if '"' not in s and '\n' not in s and '\\' not in s:
+    return '"%s"' % s
+  if '"""' not in s and not s.endswith('"') and '\\' not in s:
+    return '"""%s"""' % s
+  return "'" + ''.join({"'": "\\'", '\\': '\\\\', '\n': '\\n'}.get(c, c)
+                       for c in s) + "'"
 
 
 def RemoveDb(db):
@@ -40,20 +76,26 @@ def RemoveDb(db):
       pass
 
 
-def RenderVersion(version, attach, db):
-  """Logica text of a version whose grounded tables live in the file `db`
-  attached under the dataset name `attach` (logica_test: the SQLite default
-  dataset; logica_home: the form of docs/learn/logica.md)."""
+def RenderVersion(version, paths):
+  """Logica text of a version; paths: alias -> SQLite file."""
   prog = dict(version['prog'])
-  ann = ['@AttachDatabase("%s", "%s");' % (attach, db)]
+  ann = ['@AttachDatabase("%s", "%s");' % (a, paths[a])
+         for a in version['attached']]
+  if version.get('dataset'):
+    ann.append('@Dataset("%s");' % version['dataset'])
   for g in version['grounded']:
-    if g['t'] == g['p']:
-      ann.append('@Ground(%s);' % g['p'])
+    if g['t']:
+      ann.append('@Ground(%s, "%s");' % (g['p'], g['t']))
     else:
-      ann.append('@Ground(%s, "%s.%s");' % (g['p'], attach, g['t']))
+      ann.append('@Ground(%s);' % g['p'])
   prog['ann'] = ann + list(prog.get('ann', []))
   prog.setdefault('makes', [])
-  return ir.RenderProgram(prog)
+  saved = ir.StrLit
+  ir.StrLit = StrLit          # literals with newlines, quotes, ...
+  try:
+    return ir.RenderProgram(prog)
+  finally:
+    ir.StrLit = saved
 
 
 def Compile(text, pred):
@@ -65,9 +107,24 @@ def Compile(text, pred):
   return [ex.preamble] + list(ex.defines_and_exports) + [ex.main_predicate_sql]
 
 
-def RunPredicate(text, pred, use_cache=False):
-  """One `logica.py run`: {'status': 'ok', 'rows': [...], 'main_sql': ...} or
-  {'status': 'reject'|'internal'|'sqlerror', 'cls', 'msg'}."""
+def _Requery(statements):
+  """preamble + main SQL only (read-only): header and raw rows."""
+  m = impl.Mods()
+  con = m['sqlite3_logica'].SqliteConnect()
+  try:
+    cur = con.cursor()
+    cur.executescript(statements[0])
+    cur.execute(statements[-1])
+    rows = cur.fetchall()
+    return [d[0] for d in cur.description], rows
+  finally:
+    con.close()
+
+
+def RunPredicate(text, pred, use_cache=False, mode='script'):
+  """One `logica.py <file> run_to_csv <pred>` through the real runner (see the
+  module doc).  {'status': 'ok', 'rows': [...], 'main_sql': ...} or
+  {'status': 'reject'|'internal'|'sqlerror'|'output_differs', 'cls', 'msg'}."""
   m = impl.Mods()
   err = io.StringIO()
   with contextlib.redirect_stderr(err), contextlib.redirect_stdout(err):
@@ -86,49 +143,68 @@ def RunPredicate(text, pred, use_cache=False):
         raise
       return {'status': impl.Classify(e), 'stage': 'compile',
               'cls': type(e).__name__, 'msg': impl.ExcText(e)}
-    con = None
     try:
-      con = m['sqlite3_logica'].SqliteConnect()
-      cur = con.cursor()
-      for s in statements[:-1]:
-        cur.executescript(s)
-      cur.execute(statements[-1])
-      rows = cur.fetchall()
-      cols = [d[0] for d in cur.description]
-      con.close()
+      if mode == 'main':
+        path = DbPath('prog')[:-3] + '.l'
+        with open(path, 'w') as f:
+          f.write(text)
+        try:
+          p = subprocess.run(
+              [sys.executable, os.path.join(common.REPO, 'logica.py'), path,
+               'run_to_csv', pred], capture_output=True, timeout=600)
+        finally:
+          os.unlink(path)
+        STATS['main'] = STATS.get('main', 0) + 1
+        if p.returncode != 0:
+          return {'status': 'sqlerror', 'stage': 'logica.py',
+                  'cls': 'ExitCode%d' % p.returncode,
+                  'msg': (p.stderr.decode(errors='replace')[-600:] or
+                          p.stdout.decode(errors='replace')[-600:]),
+                  'statements': statements}
+        got = p.stdout.decode()
+        if got.endswith('\n'):
+          got = got[:-1]          # logica.py prints the text with print()
+      else:
+        got = m['sqlite3_logica'].RunSqlScript(statements, 'csv')
+        STATS['script'] = STATS.get('script', 0) + 1
+      cols, raw = _Requery(statements)
+      want = m['sqlite3_logica'].Csv(cols, raw)
     except BaseException as e:  # pylint: disable=broad-except
       if isinstance(e, KeyboardInterrupt):
         raise
-      try:
-        if con is not None:
-          con.close()
-      except Exception:  # pylint: disable=broad-except
-        pass
       return {'status': 'sqlerror', 'stage': 'execute',
               'cls': type(e).__name__, 'msg': impl.ExcText(e),
               'statements': statements}
+  if got != want:
+    return {'status': 'output_differs', 'stage': 'output',
+            'cls': 'OutputDiffers',
+            'msg': 'runner printed %r, the rows are %r' % (got[:300],
+                                                            want[:300]),
+            'statements': statements}
   return {'status': 'ok', 'cols': cols, 'main_sql': statements[-1],
-          'n_statements': len(statements),
-          'rows': [{c: impl.Tag(v) for c, v in zip(cols, r)} for r in rows]}
+          'n_statements': len(statements), 'mode': mode,
+          'rows': [{c: impl.Tag(v) for c, v in zip(cols, r)} for r in raw]}
 
 
-def ReadTables(db):
-  """Every table of the attached file: {name: [{col: tagged}...]}."""
-  if not os.path.exists(db):
-    return {}
-  con = sqlite3.connect(db)
-  try:
-    names = [r[0] for r in con.execute(
-        "SELECT name FROM sqlite_master WHERE type='table' ORDER BY name")]
-    out = {}
-    for n in names:
-      cur = con.execute('SELECT * FROM "%s"' % n)
-      cols = [d[0] for d in cur.description]
-      out[n] = [{c: impl.Tag(v) for c, v in zip(cols, r)}
-                for r in cur.fetchall()]
-    return out
-  finally:
-    con.close()
+def ReadTables(paths):
+  """Every table of every attached file: {"alias.name": [{col: tagged}...]}."""
+  out = {}
+  for alias, db in sorted(paths.items()):
+    if not os.path.exists(db):
+      continue
+    con = sqlite3.connect(db)
+    try:
+      names = [r[0] for r in con.execute(
+          "SELECT name FROM sqlite_master WHERE type='table' ORDER BY name")]
+      for n in names:
+        cur = con.execute('SELECT * FROM "%s"' % n)
+        cols = [d[0] for d in cur.description]
+        out['%s.%s' % (alias, n)] = [
+            {c: impl.Tag(v) for c, v in zip(cols, r)}
+            for r in cur.fetchall()]
+    finally:
+      con.close()
+  return out
 
 
 def SqlValue(t):
@@ -138,10 +214,11 @@ def SqlValue(t):
   return v
 
 
-def PrePopulate(db, table, bag):
-  """Somebody leaves a table under this name in the file."""
+def PrePopulate(paths, key, bag):
+  """Somebody leaves a table "alias.name" in the file attached as alias."""
+  alias, table = key.split('.', 1)
   cols = sorted(bag[0].keys())
-  con = sqlite3.connect(db)
+  con = sqlite3.connect(paths[alias])
   try:
     con.execute('DROP TABLE IF EXISTS "%s"' % table)
     con.execute('CREATE TABLE "%s" (%s)' % (
@@ -160,16 +237,20 @@ def WithSentinel(tables):
   return d
 
 
-def Perform(versions, attach, steps, use_cache=False):
-  """Performs the steps ({a, p, t, ver, bag}) on a fresh file; returns the
-  observed events (the shape spec/GroundTrace.tla reads) and the texts."""
-  db = DbPath()
-  RemoveDb(db)
-  texts = [RenderVersion(v, attach, db) for v in versions]
+def Perform(versions, steps, use_cache=False, main_every=0):
+  """Performs the steps ({a, p, t, ver, bag}) on fresh files; returns the
+  observed events (the shape spec/GroundTrace.tla reads) and the texts.
+  main_every = k > 0: every k-th run of the sequence goes through the
+  subprocess `logica.py ... run_to_csv` instead of in-process RunSqlScript."""
+  paths = {a: DbPath(a) for a in Aliases(versions)}
+  for db in paths.values():
+    RemoveDb(db)
+  texts = [RenderVersion(v, paths) for v in versions]
   ver = 1
   out = []
   events = []
   infos = []
+  nrun = 0
   try:
     for s in steps:
       a = s['a']
@@ -177,8 +258,11 @@ def Perform(versions, attach, steps, use_cache=False):
             'bag': s.get('bag', []), 'status': 'ok', 'out': out}
       info = {}
       if a == 'Run':
-        res = RunPredicate(texts[ver - 1], s['p'], use_cache)
+        nrun += 1
+        mode = 'main' if main_every and nrun % main_every == 0 else 'script'
+        res = RunPredicate(texts[ver - 1], s['p'], use_cache, mode)
         ev['status'] = res['status']
+        info['mode'] = mode
         if res['status'] == 'ok':
           out = res['rows']
           ev['out'] = out
@@ -186,15 +270,16 @@ def Perform(versions, attach, steps, use_cache=False):
         else:
           info.update({k: res.get(k) for k in ('cls', 'msg', 'stage')})
       elif a == 'Pre':
-        PrePopulate(db, s['t'], s['bag'])
+        PrePopulate(paths, s['t'], s['bag'])
       elif a == 'Switch':
         ver = s['ver']
         ev['ver'] = ver
-      ev['file'] = WithSentinel(ReadTables(db))
+      ev['file'] = WithSentinel(ReadTables(paths))
       events.append(ev)
       infos.append(info)
   finally:
-    RemoveDb(db)
+    for db in paths.values():
+      RemoveDb(db)
   return events, infos, texts
 
 
